@@ -20,7 +20,7 @@ class Prop(BaseProp):
             "distinct = (kind, interleaving word / bin regime / rate regime)")
     budget = {"quick": 3000, "thorough": 1500000}
     must_see = ["merge", "merge_cross_train_duplicates", "merge_empty_train", "merge_single_train", "merge_spike_on_t_end",
-                "psth", "psth_non_divisor", "psth_spike_on_t_end", "psth_bin_equals_T", "poisson", "poisson_scalar_interval",
+                "psth", "psth_non_divisor", "psth_spike_on_t_end", "psth_bin_equals_T", "psth_list_mutated_between_calls", "poisson", "poisson_scalar_interval",
                 "poisson_shifted_start", "poisson_negative_start", "poisson_empty_result", "poisson_many_spikes"]
     arm_files = [("pyspike/spikes.py", ["merge_spike_trains", "generate_poisson_spikes"]), ("pyspike/psth.py", None)]
     assumptions = ["psth bin edges are compared with np.linspace(t_start, t_end, int(T/bin)+1) as the statement's 'equally wide "
@@ -102,6 +102,21 @@ class Prop(BaseProp):
                     cnt[kx] += 1
             ctx.expect(np.asarray(p.y, dtype=float).tolist() == [float(v) for v in cnt], "psth:bin-counts", "bin values %s, independent count %s" % (common.short(np.asarray(p.y).tolist()), cnt))
             ctx.expect(float(np.sum(p.y)) == float(len(allsp)), "psth:not-conserving", "bin values sum to %r, %d spikes inside the recording" % (float(np.sum(p.y)), len(allsp)))
+            # history: the SAME list object is changed in place (append / replace) and histogrammed again
+            if len(tr) >= 1:
+                ctx.count("psth_list_mutated_between_calls")
+                extra = ps.SpikeTrain(np.array(sorted(set(tr[0]) | {ts + T / 2}), dtype=float), [ts, te])
+                sts.append(extra)
+                if len(sts) > 2:
+                    sts[1] = ps.SpikeTrain(np.array([], dtype=float), [ts, te])
+                all2 = [t for st_ in sts for t in st_.spikes.tolist()]
+                p2 = ctx.call(ps.psth, sts, b, _name="psth")
+                cnt2 = [0] * nb
+                for t in all2:
+                    kx = nb - 1 if t == te else int(np.searchsorted(x, t, side="right")) - 1
+                    cnt2[kx] += 1
+                ctx.expect(np.asarray(p2.y, dtype=float).tolist() == [float(v) for v in cnt2], "psth:stale-after-list-mutation",
+                           "after changing the list in place psth gives %s, independent count %s" % (common.short(np.asarray(p2.y).tolist()), cnt2))
         else:
             T0, T1 = case["T_start"], case["T_end"]
             L = T1 - T0
